@@ -325,4 +325,66 @@ theorem lift_cum (j : Nat) (w : Cand) (i : Nat) (b : Ballot) (hnd : (ballotCands
   unfold bscore at h1 h2
   constructor <;> linarith
 
+/-! ### the default Bucklin on profiles without shared ranks -/
+
+/-- no ballot of the profile has a shared rank -/
+def Strict (p : RProfile) : Prop := ∀ b ∈ dkeys p, b.any isShared = false
+
+instance (p : RProfile) : Decidable (Strict p) := by unfold Strict; infer_instance
+
+theorem decouple_of_strict (p : RProfile) (h : Strict p) : decouple p = p := by
+  unfold decouple
+  have : ∀ (q acc : RProfile), (∀ bw ∈ q, bw.1.any isShared = false) →
+      q.foldl (fun nv bw => if bw.1.any isShared then
+        (linearize bw.1).foldl (fun nv v => addTo nv v (bw.2 / ((linearize bw.1).length : Rat)))
+          (nv.filter (fun e => e.1 ≠ bw.1)) else nv) acc = acc := by
+    intro q
+    induction q with
+    | nil => intro acc _; rfl
+    | cons a t ih =>
+      intro acc hq
+      rw [List.foldl_cons, hq a (by simp)]
+      simp only [Bool.false_eq_true, ↓reduceIte]
+      exact ih acc (fun bw hbw => hq bw (by simp [hbw]))
+  exact this p p (fun bw hbw => h bw.1 (List.mem_map.mpr ⟨bw, hbw, rfl⟩))
+
+theorem strip_strict {w : Cand} {b : Ballot} (h : b.any isShared = false) : (strip w b).any isShared = false := by
+  induction b with
+  | nil => rfl
+  | cons it rest ih =>
+    simp only [List.any_cons, Bool.or_eq_false_iff] at h
+    cases it with
+    | shared cs => simp [isShared] at h
+    | one c =>
+      by_cases hc : c = w
+      · have : strip w (RankItem.one c :: rest) = strip w rest := by simp [strip, stripItem, hc]
+        rw [this]; exact ih h.2
+      · have : strip w (RankItem.one c :: rest) = RankItem.one c :: strip w rest := by simp [strip, stripItem, hc]
+        rw [this, List.any_cons, ih h.2]; rfl
+
+theorem lift_strict {w : Cand} {i : Nat} {b : Ballot} (h : b.any isShared = false) : (lift w i b).any isShared = false := by
+  have hs := strip_strict (w := w) h
+  unfold lift
+  rw [List.any_append, List.any_cons]
+  have h1 : ((strip w b).take i).any isShared = false := by
+    rw [List.any_eq_false] at hs ⊢
+    exact fun x hx => hs x (List.mem_of_mem_take hx)
+  have h2 : ((strip w b).drop i).any isShared = false := by
+    rw [List.any_eq_false] at hs ⊢
+    exact fun x hx => hs x (List.mem_of_mem_drop hx)
+  rw [h1, h2]; rfl
+
+theorem strict_replaceUnit {p : RProfile} {w : Cand} {i : Nat} {b : Ballot} (h : Strict p) (hb : b ∈ dkeys p) :
+    Strict (replaceUnit p b (lift w i b)) := by
+  intro x hx
+  rcases mem_dkeys_replaceUnit hx with hx | rfl
+  · exact h x hx
+  · exact lift_strict (h b hb)
+
+theorem strict_bullet {p : RProfile} (w : Cand) (h : Strict p) : Strict (addTo p [RankItem.one w] 1) := by
+  intro x hx
+  rcases (mem_dkeys_addTo p _ 1 x).mp hx with hx | rfl
+  · exact h x hx
+  · rfl
+
 end VL.Mono
